@@ -31,7 +31,7 @@ RULE = (
 BOUNDS = {
     "quick": "versions {3.0,3.1,4.0} x pixel size {1.0,2.5} x 4 documented name formats per version x optics on/off (>=3.1) x "
              "binning {default,1.0} x version/pixel size given to the constructor or to the call; import: full product version x "
-             "pixel size x pixel-size source {argument, rlnPixelSize, optics block, 2 optics groups} x file/table, plus every single "
+             "pixel size x pixel-size source {argument, rlnPixelSize, optics block, 2 optics groups, 2 optics groups listed in reverse} x file/table, plus every single "
              "deviation in name style / half-set style / column order / version argument / extra columns; chunks: 8 one-row, "
              "8 two-row, 4 x <=300 rows (1052 orientations = 1008 lattice + 44 special); helpers: 4 functions x their options",
     "thorough": "as quick plus pixel size 0.8375, two more name formats per version (docstring examples), import with every PAIR of "
@@ -715,8 +715,8 @@ def pxsrc_for(ver):
     if ver == 3.0:
         return ["arg", "column"]
     if ver == 3.1:
-        return ["arg", "column", "optics", "optics2"]
-    return ["arg", "optics", "optics2"]
+        return ["arg", "column", "optics", "optics2", "optics2rev"]
+    return ["arg", "optics", "optics2", "optics2rev"]
 
 
 def relion_input(rows, ver, px, pxsrc, opt):
@@ -766,7 +766,7 @@ def relion_input(rows, ver, px, pxsrc, opt):
     px_row = np.full(n, float(px))
     if pxsrc == "column":
         cols["rlnPixelSize"] = [float(px)] * n
-    elif pxsrc in ("optics", "optics2"):
+    elif pxsrc in ("optics", "optics2", "optics2rev"):
         if pxsrc == "optics":
             grp = np.ones(n, dtype=int)
             pxs = [float(px)]
@@ -777,6 +777,8 @@ def relion_input(rows, ver, px, pxsrc, opt):
         cols["rlnOpticsGroup"] = [int(v) for v in grp]
         olabels = ["rlnOpticsGroup", "rlnOpticsGroupName", "rlnSphericalAberration", "rlnVoltage", "rlnImagePixelSize", "rlnImageSize", "rlnImageDimensionality"]
         orows = [[k + 1, f"opticsGroup{k + 1}", 2.7, 300.0, p, 64, 3] for k, p in enumerate(pxs)]
+        if pxsrc == "optics2rev":
+            orows = orows[::-1]  # the optics table lists group 2 before group 1: groups are matched by number, not by row
         optics = (olabels, orows)
     if opt["extra"] == "yes":
         cols["rlnCtfImage"] = [f"/data2/ctf/{a:04d}_{b}_ctf.mrc" for a, b in zip(t, s)]
@@ -845,7 +847,7 @@ def ex_import(case, obs):
         with open("c03_in.star", "w") as f:
             f.write(text)
         site = "RelionMotl(path)"
-        m = _lib(obs, site, "optics-2-groups" if pxsrc == "optics2" else "", cm.RelionMotl, "c03_in.star", **kw)
+        m = _lib(obs, site, "optics-2-groups" if pxsrc.startswith("optics2") else "", cm.RelionMotl, "c03_in.star", **kw)
     else:
         df, odf = relion_frames(labels, cols, optics)
         if opt.get("rowindex", "default") != "default" and len(df):
@@ -854,7 +856,7 @@ def ex_import(case, obs):
         if odf is not None:
             kw["optics_data"] = odf
         site = "RelionMotl(relion_df)"
-        m = _lib(obs, site, "optics-2-groups" if pxsrc == "optics2" else "", cm.RelionMotl, df, **kw)
+        m = _lib(obs, site, "optics-2-groups" if pxsrc.startswith("optics2") else "", cm.RelionMotl, df, **kw)
     judge_import(obs, site, "import", m.df, exp, TOL_POS_MEM, TOL_ROT_MEM)
     d = m.df
     obs.outcome = _digest(*[np.asarray(d[c], dtype=float) for c in ("x", "shift_x", "shift_z", "phi", "theta", "psi", "subtomo_id", "geom3", "tomo_id")]) if set(COLS) <= set(d.columns) else ("bad",)
@@ -1087,7 +1089,7 @@ def _cfgs_helper_from(tier):
         for via in ("file", "df"):
             for ver in VERSIONS:
                 for pxsrc in pxsrc_for(ver):
-                    if pxsrc == "optics2":
+                    if pxsrc.startswith("optics2"):
                         continue
                     if fn == "relion2stopgap" and pxsrc == "arg" and ver >= 3.1:
                         continue  # relion2stopgap has no pixel-size argument: the size must come from the data
